@@ -1,5 +1,7 @@
 package main
 
+import "golang.org/x/tools/go/ssa"
+
 func init() {
 	register(&Property{
 		ID:          "C10",
@@ -26,4 +28,118 @@ func runC10(e *Engine, r *Report) {
 	st := e.CheckErrDiscipline(r, c10Scope, c10Accept)
 	r.floor("ERR-calls", st.Calls, 1)
 	r.floor("ERR-edges", st.ErrEdges, 1)
+	// sticky error fields of the Tan record writer
+	ns := e.CheckStickyErrors(r, "internal/tan")
+	r.floor("ERR-S", ns, 5)
+	// write -> fsync pairing and manifest/CURRENT durability in Tan
+	runTanSync(e, r)
+	runTanDirSync(e, r)
+	// one committed write batch per save in the pebble-backed store
+	runSingleBatch(e, r)
+}
+
+// runTanDirSync: after the CURRENT pointer is switched (rename inside
+// setCurrentFile) and after a manifest/log file is created, the directory is
+// fsynced before success is reported.
+func runTanDirSync(e *Engine, r *Report) {
+	scf := r.need("internal/tan.setCurrentFile")
+	if scf == nil {
+		return
+	}
+	isDirSync := func(in ssa.Instruction) bool {
+		c, ok := in.(*ssa.Call)
+		return ok && c.Call.IsInvoke() && c.Call.Method.Name() == "Sync"
+	}
+	n := 0
+	for _, s := range e.CallerSites(scf) {
+		c, ok := s.(*ssa.Call)
+		if !ok {
+			continue
+		}
+		n++
+		fn := s.Parent()
+		res := e.findPath(fn, c, func(in ssa.Instruction) bool { return e.isSuccessReturn(in) }, isDirSync, nil)
+		okp := !res.Found
+		if !okp && fn.Parent() != nil {
+			// inside an immediately invoked closure: the parent must sync after the closure returns... not accepted:
+			okp = false
+		}
+		r.check(okp, "PAIR-tan-dirsync", "setCurrentFile in "+fname(fn)+" is followed by a directory sync", e.ipos(s),
+			"switching CURRENT to a new manifest is made durable before success", "CURRENT can be switched to a new manifest without a following directory fsync: after a crash the old manifest (which does not list newer log files) is used")
+	}
+	r.floor("PAIR-tan-dirsync", n, 2)
+	// setCurrentFile itself: write temp, sync it, rename
+	okOrder := false
+	for _, f := range append([]*ssa.Function{scf}, scf.AnonFuncs...) {
+		var syncI, renameI ssa.Instruction
+		forEachCall(f, func(s ssa.CallInstruction) {
+			if !s.Common().IsInvoke() {
+				return
+			}
+			switch s.Common().Method.Name() {
+			case "Sync":
+				if syncI == nil {
+					syncI = s.(ssa.Instruction)
+				}
+			case "Rename":
+				renameI = s.(ssa.Instruction)
+			}
+		})
+		if syncI != nil && renameI != nil {
+			sI := syncI
+			okOrder, _ = e.alwaysPrecededBy(renameI, func(in ssa.Instruction) bool { return in == sI }, 0)
+		}
+	}
+	r.check(okOrder, "PAIR-tan-dirsync", "setCurrentFile syncs the temp file before renaming it to CURRENT", e.pos(scf.Pos()),
+		"CURRENT never points to unsynced content", "setCurrentFile can rename the temp file to CURRENT before its content is synced")
+}
+
+// runSingleBatch: each save function of the pebble-backed db commits at most
+// one write batch and has no side writes (SaveValue/DeleteValue have no live caller).
+func runSingleBatch(e *Engine, r *Report) {
+	commitM := r.needMethod("internal/logdb/kv", "IKVStore", "CommitWriteBatch")
+	if commitM == nil {
+		return
+	}
+	logdbPkg := e.pkgTypes("internal/logdb")
+	n := 0
+	for _, fn := range e.ScopeFuncs() {
+		if fnPkg(fn) != logdbPkg || !e.IsLive(fn) {
+			continue
+		}
+		sites := e.MethodSitesIn(fn, commitM)
+		if len(sites) == 0 {
+			continue
+		}
+		n++
+		// no path from one commit to another commit in the same call
+		twice := false
+		for _, s := range sites {
+			if c, ok := s.(*ssa.Call); ok {
+				res := e.findPath(fn, c, func(in ssa.Instruction) bool {
+					cc, ok := in.(ssa.CallInstruction)
+					return ok && e.IsMethodCall(cc, commitM)
+				}, nil, nil)
+				if res.Found {
+					twice = true
+				}
+			}
+		}
+		r.check(!twice, "MPT-single-batch", fname(fn)+" commits one write batch", e.pos(fn.Pos()),
+			"a save is one atomic batch", "a save can commit two write batches: a crash between them leaves it half visible")
+	}
+	r.floor("MPT-single-batch", n, 4)
+	for _, mn := range []string{"SaveValue", "DeleteValue"} {
+		m := e.Method("internal/logdb/kv", "IKVStore", mn)
+		live := 0
+		for _, s := range e.AllMethodSites(m) {
+			if e.IsLive(s.Parent()) {
+				live++
+				r.bad("MPT-single-batch", "IKVStore."+mn+" called in "+fname(s.Parent()), e.ipos(s), "a key is written outside the save's write batch")
+			}
+		}
+		if live == 0 {
+			r.add(Ob{Rule: "MPT-single-batch", Construct: "no live caller of IKVStore." + mn, Pos: "-", OK: true, Detail: "no side writes (positive control: CommitWriteBatch sites found by the same query)", Trivial: true})
+		}
+	}
 }
